@@ -1,6 +1,8 @@
 """C01 — correspondence and monitor: see harness/ledger.py"""
-from . import ledger
+from . import kit, ledger
 
 
 def run(ctx):
-    return ledger.run_ledger(ctx, "C01")
+    res = ledger.run_ledger(ctx, "C01")
+    kit.optimised_interpreter_probe(res, "ledger")
+    return res
